@@ -2,7 +2,9 @@
 package recovery
 
 import (
+	stderrors "errors"
 	"fmt"
+	"io/fs"
 	"math"
 	"os"
 	"strings"
@@ -120,7 +122,12 @@ func (dr *DatabaseRecovery) LoadDatabaseWithFallback(primaryPath, personalPath s
 func (dr *DatabaseRecovery) loadWithRetry(primaryPath, personalPath string) (*database.Database, error) {
 	var lastErr error
 
-	for attempt := 1; attempt <= dr.retryConfig.MaxAttempts; attempt++ {
+	maxAttempts := dr.retryConfig.MaxAttempts
+	if maxAttempts < 1 {
+		maxAttempts = 1 // always try at least once
+	}
+
+	for attempt := 1; attempt <= maxAttempts; attempt++ {
 		db, err := database.LoadDatabaseWithPersonal(primaryPath, personalPath)
 		verifAttempt(attempt, err)
 		if err == nil {
@@ -135,7 +142,7 @@ func (dr *DatabaseRecovery) loadWithRetry(primaryPath, personalPath string) (*da
 		}
 
 		// Don't sleep on the last attempt
-		if attempt < dr.retryConfig.MaxAttempts {
+		if attempt < maxAttempts {
 			delay := dr.calculateDelay(attempt)
 			verifDelay(attempt, delay)
 			time.Sleep(delay)
@@ -147,8 +154,8 @@ func (dr *DatabaseRecovery) loadWithRetry(primaryPath, personalPath string) (*da
 
 // shouldRetry determines if an error is worth retrying
 func (dr *DatabaseRecovery) shouldRetry(err error) bool {
-	// Don't retry for file not found or permission errors
-	if os.IsNotExist(err) || os.IsPermission(err) {
+	// Don't retry for file not found or permission errors (also when wrapped)
+	if stderrors.Is(err, fs.ErrNotExist) || stderrors.Is(err, fs.ErrPermission) {
 		return false
 	}
 
